@@ -11,10 +11,12 @@ package c07
 //	    ops = G:<gid>:<id;id;…> | D:<gid>, comma separated: LogGrouping / group dissolve events as
 //	    they reach the node. Every G goes through the REAL handleGrouping (membership test) and
 //	    the REAL pdkg.Grouping (group table, LoadOrStore) of a node built around a real pdkg;
-//	    D is pdkg.GroupDissolve. Then the node's list for <gid> (pdkg.GetGroupIDs, what groupInfo
+//	    D is a LogGroupDissolve event handed to the node's REAL onchainLoop (round 5: the node calls
+//	    pdkg.GroupDissolve only when it holds a share – it never does in these cases, so the entry stays;
+//	    histories with a share: grpd, groupk.go). Then the node's list for <gid> (pdkg.GetGroupIDs, what groupInfo
 //	    hands to handleQuery) goes to the real choseSubmitter. Printed: "nogroup" or
 //	    "n=<len> id <submitter>". The oracle recomputes it from the case line alone: the list of the
-//	    first G for <gid> since the last D that names <me>, indexed by (lastRand mod 2^64) mod n.
+//	    first G for <gid> that names <me>, indexed by (lastRand mod 2^64) mod n.
 //	    The block time of the chain double is 0, so the key generation started by Grouping is
 //	    cancelled at once: only the bookkeeping is exercised (the key generation itself is C04).
 
@@ -24,8 +26,11 @@ import (
 	"math/big"
 	"strings"
 	"sync"
+	"sync/atomic"
+	"time"
 
 	"github.com/DOSNetwork/core/dosnode"
+	"github.com/DOSNetwork/core/onchain"
 	dkg "github.com/DOSNetwork/core/share/dkg/pedersen"
 
 	"verifharness/internal/dkgnet"
@@ -123,8 +128,19 @@ func sizeClass(n int) string {
 type gop struct {
 	dissolve bool
 	gid      string
+	gidNum   *big.Int
 	ids      [][]byte
 }
+
+// grpChain: the recording chain double with a block time that can be changed while the node runs:
+// onchainLoop needs a positive one for its ticker, handleGrouping multiplies it into the deadline of
+// the key generation (0 = cancelled at once: only the bookkeeping runs).
+type grpChain struct {
+	*doubles.Chain
+	bt uint64
+}
+
+func (c *grpChain) GetBlockTime() uint64 { return atomic.LoadUint64(&c.bt) }
 
 func parseGops(s string) []gop {
 	if s == "-" {
@@ -135,7 +151,7 @@ func parseGops(s string) []gop {
 		f := strings.Split(t, ":")
 		switch f[0] {
 		case "D":
-			out = append(out, gop{dissolve: true, gid: gidKey(f[1])})
+			out = append(out, gop{dissolve: true, gid: gidKey(f[1]), gidNum: h.BigDec(f[1])})
 		case "G":
 			out = append(out, gop{gid: gidKey(f[1]), ids: splitIDs(f[2])})
 		default:
@@ -156,19 +172,45 @@ func execGrp(w []string) (res h.Result) {
 	res.Nontrivial = true
 
 	p := doubles.NewP2P(me, 4)
-	chain := &doubles.Chain{BlockTime: 0}
+	chain := &grpChain{Chain: &doubles.Chain{Events: make(chan interface{})}, bt: 1}
 	table := dkg.NewPDKG(p, suite)
 	node := dosnode.VerifNewNode(me, p, chain, table, 4, quiet)
 	defer node.VerifCancel()
+	// a dissolve event goes through the REAL dispatch branch of onchainLoop
+	// (`if d.isMember(groupID) { d.dkg.GroupDissolve(groupID) }`, review H #6)
+	give := func(ev interface{}) bool {
+		select {
+		case chain.Events <- ev:
+			return true
+		case <-time.After(15 * time.Second):
+			return false
+		}
+	}
+	looping := false
+	for _, op := range ops {
+		looping = looping || op.dissolve
+	}
+	if looping {
+		go node.VerifOnchainLoop()
+		if !give(struct{}{}) { // taken: the loop has set up its ticker with the positive block time
+			res.Impl, res.Oracle = "stuck event", "grp-stuck: onchainLoop did not take a chain event for 15 s"
+			return
+		}
+	}
+	atomic.StoreUint64(&chain.bt, 0)
 
-	// the oracle's own book: group id → list of the first accepted announcement, from the case line
+	// the oracle's own book: group id → list of the first accepted announcement, from the case line.
+	// No key generation completes in these cases, so the node never holds a share and a dissolve event
+	// deletes nothing (the `grpd` cases have the histories with a share).
 	want := map[string][][]byte{}
 	var kept [][][]byte // the slices handed to the node, and their values at that time
 	var keptCopy [][][]byte
 	for _, op := range ops {
 		if op.dissolve {
-			table.GroupDissolve(op.gid)
-			delete(want, op.gid)
+			if !give(&onchain.LogGroupDissolve{GroupId: new(big.Int).Set(op.gidNum)}) || !give(struct{}{}) {
+				res.Impl, res.Oracle = "stuck event", "grp-stuck: onchainLoop did not take a chain event for 15 s"
+				return
+			}
 			continue
 		}
 		handed := copyIDs(op.ids)
